@@ -517,6 +517,11 @@ func (a *analysis) checkRecovery(x *verifkit.Exec) {
 			srcOpenNow++
 			opens = append(opens, e)
 			transientInRun = 0
+		case e.Comp == "proc" && e.Kind == "error" && p.Window > 0 && p.Thresh == 0:
+			// the nack window tolerates no rejection: a processor error is one the DLQ does not absorb
+			if transientInRun == 0 && fatalInjected == "" {
+				fatalInjected, fatalInjectedSeq = "a processor error that the DLQ does not absorb (nack window tolerates no rejection)", e.Seq
+			}
 		case e.Comp == "dlq" && e.Kind == "runerr":
 			if transientInRun == 0 && fatalInjected == "" {
 				fatalInjected, fatalInjectedSeq = "a DLQ write failed (the DLQ connector failed while the record was written to it)", e.Seq
